@@ -143,7 +143,7 @@ impl Property for ReproProp {
                     0u64..50,
                 )
             })
-            .prop_map(|(num_vars, hard, soft, seed)| ReproCase::Wcnf { case: WcnfCase { num_vars, hard, soft, seed } })
+            .prop_map(|(num_vars, hard, soft, seed)| ReproCase::Wcnf { case: WcnfCase { num_vars, hard, soft, seed, extra_seeds: 0 } })
             .boxed();
         let fzn = (proptest::collection::vec(any::<u16>(), 200..=200), 0u64..50, any::<bool>(), any::<bool>(), 0u8..4)
             .prop_map(|(raw, seed, all, free, proof)| ReproCase::Fzn { model: build_fzn(&raw, 800), seed, all, free, proof })
